@@ -131,3 +131,57 @@ pub mod e {
         std::fs::remove_file(p)
     }
 }
+
+// ---------------------------------------------------------------- (MV) writers consumed on every success path
+pub mod mv {
+    use super::*;
+
+    pub struct FileWriter {
+        pub path: std::path::PathBuf,
+        pub file: File,
+    }
+
+    impl FileWriter {
+        pub fn new(path: &Path) -> std::io::Result<Self> {
+            Ok(Self { path: path.into(), file: File::create(path)? })
+        }
+        pub fn finish(self) -> std::io::Result<u64> {
+            self.file.sync_all()?;
+            Ok(1)
+        }
+    }
+
+    pub struct Job {
+        pub writer: FileWriter,
+        pub count: usize,
+    }
+
+    impl Job {
+        pub fn bad_finish(self) -> std::io::Result<()> {
+            if self.count == 0 {
+                // early success return drops self.writer: its file stays behind
+                return Ok(());
+            }
+            self.writer.finish()?;
+            Ok(())
+        }
+
+        pub fn good_finish(self) -> std::io::Result<()> {
+            if self.count == 0 {
+                self.writer.finish()?;
+                return Ok(());
+            }
+            self.writer.finish()?;
+            Ok(())
+        }
+
+        pub fn good_cleanup(self) -> std::io::Result<()> {
+            if self.count == 0 {
+                std::fs::remove_file(&self.writer.path)?;
+                return Ok(());
+            }
+            self.writer.finish()?;
+            Ok(())
+        }
+    }
+}
